@@ -11,6 +11,7 @@ CB g_cb[2];
 struct Chain { bool armed = false, tried = false, active = false; CO_ERR res = CO_ERR_NONE; uint8_t buf[4]; uint32_t size = 0; uint16_t idx = 0; uint8_t sub = 0; Frame req; bool have_req = false; int cbcount = 0; uint32_t code = 0; };
 Chain g_chain[2];
 Sim *g_sim = nullptr;
+void nop_cb(void *) {}
 void done0(CO_CSDO *c, uint16_t i, uint8_t s, uint32_t code);
 void done1(CO_CSDO *c, uint16_t i, uint8_t s, uint32_t code);
 void done(int n, CO_CSDO *c, uint16_t i, uint8_t s, uint32_t code) {
@@ -258,6 +259,29 @@ void one_case(Ctx &c) {
     c.ops += step + 1;
   }
   if (oth.open) { if (oth.silent) other_wait(g_cb[oth.n], 0); else other_finish(g_cb[oth.n], g_cb[oth.n].count); }
+  // a request made while the timer pool is exhausted (decided from the configuration, no tape choice): either it is accepted and then completes normally,
+  // or it is refused - then the client must still be usable as soon as a timer slot is free again
+  if ((s.nodeid + s.ntmr) % 3 == 0) {
+    std::vector<int16_t> fill; s.api_begin(); for (int g = 0; g < 64 && s.timers_used() < (int)s.ntmr; g++) { int16_t id = COTmrCreate(&s.node->Tmr, 5000, 0, nop_cb, nullptr); if (id < 0) break; fill.push_back(id); } s.api_end("COTmrCreate");
+    CHECK(c, s.timers_used() == (int)s.ntmr, "harness", "could not exhaust the timer pool");
+    s.api_begin(); CO_CSDO *cl0 = COCSdoFind(s.node, 0); s.api_end("COCSdoFind"); CHECK(c, cl0 != nullptr, "harness", "client 0 not available");
+    g_chain[0] = Chain(); g_cb[0] = CB(); s.clear_tx(); uint8_t b4[4] = {0xEE, 0xEE, 0xEE, 0xEE};
+    auto answer = [&]() { Frame r = Frame::mk(rxid[0], 8, {0x43, 0x00, 0x21, 0x00, 0x31, 0x32, 0x33, 0x34}); s.clear_tx(); s.rx(r);
+      CHECK(c, g_cb[0].count == 1 && g_cb[0].code == 0 && !memcmp(b4, "1234", 4), "pool-exhausted-request", "a request accepted %s: after the server's answer %d callback(s), code %08X", "around an exhausted timer pool", g_cb[0].count, g_cb[0].code); };
+    s.api_begin(); CO_ERR e1 = COCSdoRequestUpload(cl0, CO_DEV(0x2100, 0), b4, 4, done0, 50); s.api_end("COCSdoRequestUpload");
+    VLOG(c, "request with an exhausted timer pool -> %d", (int)e1);
+    if (e1 == CO_ERR_NONE) { CHECK(c, s.tx.size() == 1 && s.tx[0].id == txid[0] && s.tx[0].d[0] == 0x40, "pool-exhausted-request", "request accepted with an exhausted timer pool, but %zu frame(s) sent", s.tx.size()); answer(); }
+    else {
+      CHECK(c, s.tx.empty() && g_cb[0].count == 0, "pool-exhausted-request", "a refused request (error %d) sent a frame or invoked the callback", (int)e1);
+      CHECK(c, !fill.empty(), "harness", "no application timer to free");
+      s.api_begin(); COTmrDelete(&s.node->Tmr, fill.back()); s.api_end("COTmrDelete"); fill.pop_back();
+      s.api_begin(); CO_ERR e2 = COCSdoRequestUpload(cl0, CO_DEV(0x2100, 0), b4, 4, done0, 50); s.api_end("COCSdoRequestUpload");
+      CHECK(c, e2 == CO_ERR_NONE, "pool-exhausted-request", "after a request refused for lack of a timer (error %d) and with a timer slot free again, the next request on the idle client is refused with %d", (int)e1, (int)e2);
+      CHECK(c, s.tx.size() == 1 && s.tx[0].id == txid[0] && s.tx[0].d[0] == 0x40, "pool-exhausted-request", "%zu frame(s) sent for the accepted request", s.tx.size()); answer();
+    }
+    s.api_begin(); for (int16_t id : fill) COTmrDelete(&s.node->Tmr, id); s.api_end("COTmrDelete"); s.clear_tx();
+    c.cls("request-with-exhausted-timer-pool");
+  }
   if (other_tmo_cnt) c.cls("concurrent-second-client-timed-out");
   if (other_cnt) c.cls("concurrent-second-client");
   if (stale_cnt) c.cls("stale-frame-injected");
@@ -274,6 +298,7 @@ Registrar reg(Prop{
     "A frame that cannot be the awaited response (wrong command specifier for the phase, wrong toggle bit, initiate response or abort for a different multiplexer: the late answer to an earlier transfer) may precede the server's answer: the client either ignores it (no frame, no callback, the transfer completes as without it) or ends the transfer there with a non-zero code - never code 0. "
     "In build n2 the second client runs an expedited transfer of its own concurrently (begun between two steps of the main transfer; completed there, at a later step or after the main transfer; or its server stays silent and it must end with 0504 0000h and an abort frame at exactly its own timeout of 2..61 ms while the main client's timers come and go): neither transfer may disturb the other. "
     "In a fifth of the transfers the application asks for its next transfer from inside the completion callback: refused (busy) or accepted - then that transfer has to complete exactly once with the server's bytes. "
+    "In a third of the configurations a request is made with the timer pool exhausted by application timers: accepted (and then completed normally) or refused - then the client must be usable again as soon as a slot is free. "
     "user buffers are exact-size heap blocks (ASan red zones); download buffers unmodified (conforming servers); timer-pool occupancy after completion equals the one before; client idle; no callback or frame during the idle gap or on a late server frame. For malformed servers only exactly-once (by the timeout at the latest), memory safety and nothing-left-behind are asserted. "
     "Non-trivial: >= 2 transfers in the case or a segmented transfer. Distinct = distinct decoded choice sequence.",
     {Mode{"random", one_case, false, 1200000, 15000000, 0, 0, 400, 1500}},
